@@ -93,7 +93,9 @@ def write_request(tables, uri, inc, newver, fname):
     return [Sym("write_doc"), tables[:4], [uri, inc, T0.isoformat(), "NOW", [] if newver is None else [newver], fname]]
 
 def make_graph(rng, quick, hostile=False, clash=False, shape=None, extra=None):
-    if shape == "wide":      # ten namespaces with one or two nodes each and sparse dependencies: compaction over a long table
+    if shape == "hub":
+        g = nsgen.gen_graph(rng, n_ns=12, n_nodes=rng.randint(6, 10), hostile=False, dangling=False, value_gen=parseprops.value_gen)
+    elif shape == "wide":      # ten namespaces with one or two nodes each and sparse dependencies: compaction over a long table
         g = nsgen.gen_graph(rng, n_ns=rng.randint(9, 11), n_nodes=rng.randint(12, 16), hostile=hostile, dangling=False, value_gen=parseprops.value_gen)
     else:
         g = nsgen.gen_graph(rng, n_ns=3 if shape else rng.randint(1, 3), n_nodes=rng.randint(5, 7) if shape else rng.randint(2, 6 if quick else 9), hostile=hostile, dangling=False, value_gen=parseprops.value_gen)
@@ -175,6 +177,23 @@ def make_graph(rng, quick, hostile=False, clash=False, shape=None, extra=None):
             g.nodes[new_k]["display"] = "R&amp;D &lt;x&gt;"; g.nodes[new_k]["desc"] = "&#65; &quot;q&quot; &amp;amp;"
             others = [k for k in g.order if k[0] != new_k[0]]
             g.refs.append((new_k, rng.choice(others), (UA, "i", "35"))); g.refs.append((rng.choice(others), new_k, (UA, "i", "47")))
+    if shape == "hub" and len(g.uris) >= 11:
+        # the first namespace refers to a node of EVERY other namespace: its document's namespace table has more than ten entries
+        U = g.uris[0]
+        hub = (U, "s", "Hub"); g.nodes[hub] = dict(cls="UAObject", bname=(U, "Hub"), display="Hub", desc=None, attrs={}, value=None); g.order.append(hub)
+        g.refs.append(((UA, "i", "85"), hub, (UA, "i", "35")))
+        for j, V in enumerate(g.uris[1:]):
+            mineV = [k for k in g.order if k[0] == V]
+            if not mineV:
+                k = (V, "i", str(7300 + j)); g.nodes[k] = dict(cls="UAObject", bname=(V, "Spoke%d" % j), display="Spoke%d" % j, desc=None, attrs={}, value=None); g.order.append(k); mineV = [k]
+                g.refs.append(((UA, "i", "85"), k, (UA, "i", "35")))
+            g.refs.append((hub, mineV[0], (UA, "i", "47" if j % 2 else "35")))
+    if shape in (None, "markup-id", "attr-only") and g.uris and rng.random() < 0.6:
+        # equal-but-distinct values inside ONE namespace (whatever is keyed by == would write one of them twice)
+        from opcua_tools import ua_data_types as T_
+        for nm_, v_ in (("ZeroPlus", T_.UADouble(0.0)), ("ZeroMinus", T_.UADouble(-0.0)), ("ZeroList", T_.UAListOf((T_.UAFloat(-0.0), T_.UAFloat(0.0)), "Float"))):
+            k_ = (g.uris[0], "s", nm_); g.nodes[k_] = dict(cls="UAVariable", bname=(g.uris[0], nm_), display=nm_, desc=None, attrs={}, value=v_); g.order.append(k_)
+            g.refs.append(((UA, "i", "85"), k_, (UA, "i", "35")))
     if extra: extra(g)
     if clash:          # one browse name carried by nodes of two node classes
         own = [k for k in g.order if k[0] != UA]
@@ -369,7 +388,7 @@ def run(ctx, prop):
     reqs = []; meta = []
     try:
         for ci in range({"quick": 14, "thorough": 300}[ctx.tier]):
-            shape = {0: "skip-middle", 1: "markup-id", 3: "wide", 5: "attr-only"}.get(ci % 7)
+            shape = {0: "skip-middle", 1: "markup-id", 3: "wide", 5: "attr-only", 6: "hub"}.get(ci % 7)
             # the structural shapes are generated without hostile text, so that what they show is not attributed to the recorded escaping findings
             hostile = rng.random() < 0.4 and shape in (None, "markup-id")
             g, ds = make_graph(rng, ctx.quick(), hostile=hostile, shape=shape)
